@@ -219,5 +219,5 @@ def search(seed, tier, hints):
 
 def replay(payload):
     print("replay input:", payload.get("input"))
-    print("re-run the check with the recorded seed to reproduce (a real directory history is involved)")
-    return 0
+    print("re-running the check with the recorded seed and tier (a real directory history is involved)")
+    return common.replay_by_rerun("C16", payload)
